@@ -25,6 +25,53 @@ MANIFEST = {
     "technique": "machine-checked proof in Coq (invariants over all label lists) + trace correspondence + implementation-side trace judges on real nodes",
 }
 
+# Anchored expressions (DESIGN.md §3.1, "anchored-expression mode"): the hand model transliterates these source
+# expressions; each must still be present verbatim (whitespace-insensitive) in the function that owns it. A miss is a
+# broken obligation: the §9 search for a failing input runs, and a VIOLATION is reported with or without one.
+ANCHORS = [
+    ("renumber-takes-first-blocked", "lightning/src/ln/channel.rs", 1,
+     r"let blocked_upd = self\.context\.blocked_monitor_updates\.get\(0\);"),
+    ("renumber-shifts-every-blocked", "lightning/src/ln/channel.rs", 1,
+     r"for held_update in self\.context\.blocked_monitor_updates\.iter_mut\(\) \{ held_update\.update\.update_id \+= 1; \}"),
+    ("merged-update-resets-id", "lightning/src/ln/channel.rs", 6,
+     r"self\.context\.latest_monitor_update_id = monitor_update\.update_id;"),
+    ("channel_ready-held-before-disconnect-check", "lightning/src/ln/channel.rs", 1,
+     r"if self\.context\.channel_state\.is_monitor_update_in_progress\(\) \{ log_debug!\(logger, \"Not producing channel_ready: a monitor update is in progress\. Setting monitor_pending_channel_ready\.\"\); self\.context\.monitor_pending_channel_ready = true; return None; \} if self\.context\.channel_state\.is_peer_disconnected\(\) \{"),
+    ("closing-needs-no-other-flag", "lightning/src/ln/channel.rs", 1,
+     r"ChannelState::AwaitingChannelReady\(flags\) => \{ flags & FundedStateFlags::ALL == FundedStateFlags::LOCAL_SHUTDOWN_SENT \| FundedStateFlags::REMOTE_SHUTDOWN_SENT \}"),
+    ("no-commitment-while-monitor-update", "lightning/src/ln/channel.rs", 1,
+     r"!flags\.is_set\(FundedStateFlags::MONITOR_UPDATE_IN_PROGRESS\.into\(\)\) && !flags\.is_set\(FundedStateFlags::PEER_DISCONNECTED\.into\(\)\)"),
+    ("reestablish-holds-raa", "lightning/src/ln/channel.rs", 1,
+     r"if self\.context\.channel_state\.is_monitor_update_in_progress\(\) \{ self\.context\.monitor_pending_revoke_and_ack = true; None \}"),
+    ("manager-retains-above-highest", "lightning/src/ln/channelmanager.rs", 1,
+     r"pending\.retain\(\|upd\| upd\.update_id > highest_applied_update_id\);"),
+    ("manager-resumes-only-when-none-in-flight", "lightning/src/ln/channelmanager.rs", 1,
+     r"if remaining_in_flight != 0 \{ return false; \}"),
+    ("all-complete-needs-empty-in-flight", "lightning/src/ln/channelmanager.rs", 1,
+     r"\(update_completed, update_completed && in_flight_updates\.is_empty\(\)\)"),
+    ("chainmonitor-completed-only-when-none-pending", "lightning/src/chain/chainmonitor.rs", 1,
+     r"if monitor_is_pending_updates \{ // If there are still monitor updates pending, we cannot yet construct a // Completed event\. return Ok\(\(\)\); \}"),
+    ("flush-is-fifo", "lightning/src/chain/chainmonitor.rs", 1, r"let op = match queue\.pop_front\(\) \{"),
+]
+
+
+def check_anchors():
+    import re as _re
+    bad = []
+    cache = {}
+    for (name, rel, count, pat) in ANCHORS:
+        path = os.path.join(core.REPO, rel)
+        if path not in cache:
+            try:
+                cache[path] = _re.sub(r"\s+", " ", open(path).read())
+            except OSError:
+                cache[path] = ""
+        n = len(_re.findall(pat, cache[path]))
+        if n != count:
+            bad.append({"anchor": name, "file": rel, "expected_occurrences": count, "found": n, "pattern": pat})
+    return bad
+
+
 JUDGE_NAMES = {
     "a": "update ids handed to chain::Watch gap-free and increasing",
     "b": "no dependent message/broadcast/event released before its update and all earlier ones completed",
@@ -111,6 +158,11 @@ def run(ctx):
         if not model_ok:
             ctx.log(outm[-1500:])
         proved = ctx.prove("C09")
+    # ---- anchored expressions the hand model transliterates
+    anchor_bad = check_anchors()
+    for (name, rel, count, pat) in ANCHORS:
+        hit = [a for a in anchor_bad if a["anchor"] == name]
+        ctx.obligations.append(("anchor:" + name, not hit, "expression present in %s" % rel if not hit else "expected %d occurrence(s), found %d" % (count, hit[0]["found"])))
     # ---- real traces + judges + model correspondence, in batches (a trace with its per-step views is large)
     lines, metas = gen_lines(ctx, n_schedules(ctx.tier))
     tot = {}
@@ -183,6 +235,8 @@ def run(ctx):
         broken.append({"obligation": "Coq proof of Props/C09.v", "detail": getattr(ctx, "proof_failure", None)})
     if corr_dis:
         broken.append({"correspondence": "h_monupd traces vs Model/MonUpd.v", "first_disagreements": corr_dis[:3], "n": len(corr_dis)})
+    if anchor_bad:
+        broken.append({"anchored_expressions_changed": anchor_bad})
     if broken and not failing:
         # search harder for a failing input on the implementation before reporting without one
         extra_n = 1500 if ctx.tier == "quick" else 9000
@@ -202,7 +256,7 @@ def run(ctx):
         if found:
             report_impl_violation(ctx, found[0], found[1], found[2], 60)
         else:
-            ctx.violation("C09 no longer shown: " + ("proof" if (HAVE_COQ and not proved) else "model/implementation correspondence") + " broken",
+            ctx.violation("C09 no longer shown: " + ("proof" if (HAVE_COQ and not proved) else ("model/implementation correspondence" if corr_dis else "a source expression the model transliterates changed")) + " broken",
                           {"broken": broken, "search": "implementation-side judges on %d + %d further schedules found no failing input" % (len(lines), extra_n)}, False)
     ctx.write_evidence(LEVEL)
 
